@@ -4,4 +4,23 @@ pub struct LogIndexHeaderDo {
     pub magic: u32, pub version: u16, pub last_term: u64, pub first_index: u64, pub data_area_index: u16,
     pub index_interval: u16, pub all_index_count: u16, pub status: u8, pub ext1: u8, pub ext2: u8, pub ext3: u8,
 }
+/// generated protobuf message LogRecord<'a> (src/raft/filestore/log.rs): opaque here
+pub struct LogRecord { pub vx: u64 }
+impl PbMessage for LogRecord { uninterp spec fn pb_bytes(&self) -> Seq<u8>; }
+/// DTO <-> message conversion (field-wise copies in model.rs; assumed round trip)
+pub uninterp spec fn rec_msg(d: LogRecordDto) -> LogRecord;
+pub uninterp spec fn rec_dto(m: LogRecord) -> LogRecordDto;
+pub broadcast axiom fn axiom_rec_roundtrip(d: LogRecordDto)
+    ensures #[trigger] rec_dto(rec_msg(d)) == d;
+/// a log entry is never encoded as the empty message (index, term or payload is non-zero), and fits 32 bits
+pub broadcast axiom fn axiom_rec_nonempty(d: LogRecordDto)
+    ensures 1 <= #[trigger] rec_msg(d).pb_bytes().len() < 0x1000_0000;
+impl LogRecordDto {
+    #[verifier::external_body]
+    pub fn to_record_do(&self) -> (r: LogRecord) ensures r == rec_msg(*self) { unimplemented!() }
+}
+impl From<LogRecord> for LogRecordDto {
+    #[verifier::external_body]
+    fn from(value: LogRecord) -> (r: Self) ensures r == rec_dto(value) { unimplemented!() }
+}
 } // verus!
